@@ -312,4 +312,50 @@ def q6_reader(ctx):
     check_literal_reader(ctx, 'Q6', r'regex_tokinizer::percent::percent_regex_parser$', 'Percent', ['NUMBER'], 'percent_regex_parser')
 
 
-RULES = [('Q1', q1_formulas), ('Q2', q2_money), ('Q3', q3_routing), ('Q4', q4_fields), ('Q5', q5_spellings), ('Q6', q6_reader)]
+# rules outside the statement's phrase table that may consume a percentage, with the reason
+PERCENT_PASS_THROUGH = {
+    'division_cleanup': 'hands its {PERCENT:data} field back unchanged ("p%/text" cleanup); checked below',
+}
+
+
+def q7_closed_table(ctx):
+    """Q7 the phrase table is closed: a rule that consumes a PERCENT field is one of the statement's five phrases, a
+    pass-through, or inert (its function requires a field that no pattern binds). The percent regex takes a leading sign, so
+    'X -p%' reaches the rules as the adjacent pair NUMBER PERCENT: an active juxtaposition rule would replace X*(1-p/100)."""
+    ctx.rule('Q7', 'no other active rule consumes a percentage', floor=2)
+    fns = model.rule_functions(ctx)
+    seen = set()
+    for lang in sorted(ctx.config.languages):
+        for rn, p, org in model.all_patterns(ctx, lang):
+            toks = abstract_tokens(p)
+            if not any(t[0] == 'field' and t[1] == 'PERCENT' for t in toks):
+                continue
+            if rn in SPEC:
+                continue
+            if rn not in fns:
+                continue            # dropped at load time (Q3 reports it)
+            b = rule_body(ctx, rn)
+            ctx.fn(b)
+            reads = model.fields_read(ctx, b)
+            required = set(n for n, how, _ in reads if how == 'contains_key') or set(n for n, how, _ in reads)
+            bound = {t[2] for t in toks if t[0] == 'field'}
+            missing = sorted(required - bound)
+            if missing:
+                ctx.ok('Q7', '%s[%s] %r is inert: the function requires %s, the pattern binds %s' % (rn, lang, p, missing, sorted(bound)), 'data', site=org)
+                continue
+            if rn in PERCENT_PASS_THROUGH:
+                if rn not in seen:
+                    seen.add(rn)
+                    pc = [(inner, c) for v, inner, c in result_alternatives(b) if v == 'Ok' and inner[0] == 'aggr' and inner[1].endswith('TokenType::Percent')]
+                    if pc and all(re.search(r'as Percent\.0$', render(inner[2][0])) for inner, _ in pc):
+                        ctx.ok('Q7', '%s returns its percentage unchanged' % rn, 'gamma', site=b.loc)
+                    else:
+                        ctx.finding('Q7', '%s/pass-through' % rn, '%s is listed as a pass-through but builds its Percent result as %s' % (rn, [render(i[2][0])[:60] for i, _ in pc]), site=b.loc)
+                continue
+            words = [t[1] for t in toks if t[0] in ('word', 'op')]
+            ctx.finding('Q7', '%s/%s/active' % (rn, lang), 'rule %s is active through pattern %r (%s) and consumes a percentage%s; it is not one of the statement\'s phrases: %s'
+                        % (rn, p, lang, '' if words else ' next to a number without any keyword',
+                           "'X -p%' / 'X +p%' reach the rules as this adjacent pair (the percent regex takes the sign) and no longer compute X*(1-+p/100)" if not words else 'the phrase table of the statement does not contain it'), site=org)
+
+
+RULES = [('Q7', q7_closed_table), ('Q1', q1_formulas), ('Q2', q2_money), ('Q3', q3_routing), ('Q4', q4_fields), ('Q5', q5_spellings), ('Q6', q6_reader)]
